@@ -74,9 +74,10 @@ def run(pid, tier):
         p = V.save_replay(pid, 'crash-%s.log' % case.replace(' ', '-'), case + '\n' + o)
         # the Crash event in the trace already produced a rejection for this run; keep the log next to it
     V.write_evidence(pid, tier, 'model_checking', dict(
+        states=sum(r.get('states', 0) for r in results), transitions=sum(r.get('generated', 0) for r in results),
         traces_validated_against_impl=nexec, injections=ninj, allocations_per_scenario=counts, samples=lines[:3], exhaustive=(tier == 'quick' or True),
         ledger_events=sum(r.get('ledger_events', 0) for r in results),
-        rule='for each scenario of the catalogue (%s) and every index k of an allocation it performs: fail exactly the k-th allocation'
+        rule='(states / transitions: TLC states of the ledger validation runs) for each scenario of the catalogue (%s) and every index k of an allocation it performs: fail exactly the k-th allocation'
              % ', '.join(SCENARIOS) + ('; plus sampled pairs' if tier == 'thorough' else '')),
         time.time() - t0, violations=len(vio_out),
         assumptions=['only allocations made through coap_malloc_type / coap_realloc_type are failed (GnuTLS and libc allocate on their own)',
